@@ -49,6 +49,24 @@ Theorem C03_explicit_full : forall opts fs fs',
 Proof. exact explicit_full. Qed.
 Print Assumptions C03_explicit_full.
 
+(* an option string of a successfully set-up parser belongs to exactly one field wrapper (so passing it addresses one leaf:
+   with Model/Namespace.v's store semantics, C02_mentioned_gets_value / C02_unmentioned_keeps_default, nothing else changes) *)
+Theorem C03_option_identifies_field : forall opts m fs fs' i j o,
+  resolve_gen opts m fs = Ok fs' ->
+  In o (nth i (map opts fs') []) -> In o (nth j (map opts fs') []) -> i = j.
+Proof. exact option_identifies_field. Qed.
+Print Assumptions C03_option_identifies_field.
+
+(* Absent user-supplied prefixes, a field whose name clashes with nothing keeps its bare name: for every forest of plain fields
+   (no aliases, not positional, dot-free names), under the parser's default spelling configuration, any resolution mode. *)
+Theorem C03_unclashed_keeps_bare_name : forall m fs fs' i,
+  Forall (fun f => pfx f = "") fs -> Forall wf_fw fs -> Forall plainfw fs -> Forall (fun f => nodot (name f) = true) fs ->
+  (forall j, j <> i -> j < List.length fs -> name (nth_fw fs j) <> name (nth_fw fs i)) ->
+  resolve_gen (option_strings default_cfg_parser) m fs = Ok fs' ->
+  pfx (nth_fw fs' i) = "".
+Proof. exact unclashed_bare_default. Qed.
+Print Assumptions C03_unclashed_keeps_bare_name.
+
 (* non-vacuity: two destinations sharing a nested class; AUTO resolves it with one lineage word *)
 Example C03_nonvacuous :
   let fs := [mkfw ["a"; "m"] "x" "" [] false; mkfw ["b"; "m"] "x" "" [] false; mkfw ["b"] "y" "" [] false] in
